@@ -100,7 +100,8 @@ def run(chk):
     for n in (1, 2, 3):
         case = dict(A.random_case(rng, dims=(n,)), iters=rng.choice([12, 25]), eps=0.05)
         for sub in subsets:
-            for b in batchings if thorough else rng.sample(batchings, 3):
+            full = [[case['iters']], [case['iters'] - 2, 2], [case['iters'] + 3]]      # the explicit calls already reach (or pass) the budget: Solve still reports the stop
+            for b in (batchings + full) if thorough else (rng.sample(batchings, 3) + [rng.choice(full)]):
                 c = dict(case, override=sub, script=b)
                 fails = O.guarded(O.c13_protocol, c)
                 chk.evaluations += 1
@@ -120,6 +121,14 @@ def run(chk):
             for name in console:
                 plans.append((n, [name]))
         plans += [(1, [x]) for x in one_d] + [(2, [x]) for x in two_d] + [(1, ['console-result', 'static-points']), (2, ['console-full', 'animationND'])]
+        # long runs (hundreds of trials) observed by the painters: the final picture is drawn from the whole search information
+        for n, names in ((1, ['static-points']), (2, ['staticND-lines'])) + (((1, ['static-objective']), (3, ['console-result', 'staticND-lines'])) if thorough else ()):
+            lo, hi = H.random_box(rng, n, nice=True)
+            case = {'n': n, 'lo': lo, 'hi': hi, 'r': 2.5, 'eps': 1e-9, 'iters': 900 if n == 1 else 700, 'density': None, 'objective': {'kind': 'sin', 'w': [5.0] * n, 'a': [1.0] * n}}
+            fails = O.guarded(lambda c: with_listener(c, [('solve',)], names, tmp), case)
+            chk.evaluations += 1
+            if fails:
+                found += chk.violation('shipped-listener', fails[0], {'kind': 'shipped', 'case': case, 'script': [['solve']], 'listeners': names})
         for n, names in plans:
             case = dict(A.random_case(rng, dims=(n,)), iters=rng.choice([15, 30]), eps=0.03, density=None)
             if rng.random() < 0.4:   # objectives hitting exactly 0.0 / large magnitudes (formatting corner cases)
